@@ -79,3 +79,102 @@ func verif_C07_data_cut() {
 	}
 	verifAssert(verifGoroutinesAlive() == 0, "C07.no-goroutine-left")
 }
+
+// verif_C07_bdat_cut: a two-chunk BDAT conversation cut at every byte offset
+// (inside a chunk, inside the LAST chunk, between chunks), then EOF / timeout.
+// Oracle as for DATA: EOF for the backend only if every declared octet through
+// the LAST chunk was delivered; otherwise a non-EOF error and no 2xx reply for
+// the LAST chunk.
+func verif_C07_bdat_cut() {
+	verifPreemptBound(0)
+	c1 := nondetBytesN(2)
+	c2 := nondetBytesN(3)
+	head := "EHLO c\r\nMAIL FROM:<s@v>\r\nRCPT TO:<r@v>\r\n"
+	in := []byte(head + "BDAT 2\r\n")
+	in = append(in, c1...)
+	lastCmdAt := len(in)
+	in = append(in, "BDAT 3 LAST\r\n"...)
+	in = append(in, c2...)
+	full := len(in)
+	cut := nondetInt(len(head), full)
+	var final error = io.EOF
+	if nondetBool() {
+		final = verifTimeoutErr{}
+	}
+	var got []byte
+	var rerr error
+	called := false
+	be := &vbackend{}
+	be.dataFn = func(_ *vsession, r io.Reader) error {
+		called = true
+		got, rerr = verifReadAll(r, 2)
+		if rerr == io.EOF {
+			return nil
+		}
+		return rerr
+	}
+	s, _ := verifServer(be)
+	vc, _, _ := verifServe(s, in[:cut], final)
+	reps, wf := verifParseReplies(vc.out)
+	verifAssert(wf, "C07.bdat-replies-wellformed")
+	complete := cut == full
+	all := append(append([]byte{}, c1...), c2...)
+	verifObserve("c07b", cut, complete, called, rerr == io.EOF, len(got), len(reps))
+	if called {
+		verifReach("C07.bdat-data-called")
+		if complete {
+			verifReach("C07.bdat-complete")
+			verifAssert(rerr == io.EOF && string(got) == string(all), "C07.bdat-complete-message-intact")
+		} else {
+			verifReach("C07.bdat-incomplete")
+			verifAssert(rerr != nil && rerr != io.EOF, "C07.bdat-incomplete-never-eof")
+			verifAssert(verifIsPrefix(got, all), "C07.bdat-partial-is-prefix")
+		}
+	}
+	if !complete && wf {
+		// replies: 220, ehlo, mail, rcpt, [chunk1 250], [last ...]
+		// no positive reply may exist for the LAST chunk
+		nlast := 0
+		if cut > lastCmdAt && len(reps) > 5 {
+			for _, r := range reps[5:] {
+				if r.code/100 == 2 {
+					nlast++
+				}
+			}
+		}
+		verifAssert(nlast == 0, "C07.bdat-incomplete-no-positive-final-reply")
+	}
+	verifAssert(verifGoroutinesAlive() == 0, "C07.bdat-no-goroutine-left")
+}
+
+// verif_C07_abandon: a first chunk, then the client abandons the transfer with
+// RSET, QUIT, a new EHLO, a new MAIL, or by disconnecting. The backend's
+// reader must fail (never EOF) and no goroutine may be left.
+func verif_C07_abandon() {
+	verifPreemptBound(0)
+	c1 := nondetBytesN(2)
+	in := []byte("EHLO c\r\nMAIL FROM:<s@v>\r\nRCPT TO:<r@v>\r\nBDAT 2\r\n")
+	in = append(in, c1...)
+	how := verifChoice(5)
+	in = append(in, []string{"RSET\r\n", "QUIT\r\n", "EHLO again\r\n", "", "DATA\r\n"}[how]...)
+	var got []byte
+	var rerr error
+	be := &vbackend{}
+	be.dataFn = func(_ *vsession, r io.Reader) error {
+		got, rerr = verifReadAll(r, 2)
+		if rerr == io.EOF {
+			return nil
+		}
+		return rerr
+	}
+	s, _ := verifServer(be)
+	vc, _, _ := verifServe(s, in, io.EOF)
+	reps, wf := verifParseReplies(vc.out)
+	verifObserve("c07a", how, rerr == io.EOF, len(got), wf, len(reps))
+	verifAssert(wf, "C07.abandon-replies-wellformed")
+	verifAssert(be.count("Data") == 1, "C07.abandon-data-called-once")
+	verifAssert(rerr != nil && rerr != io.EOF, "C07.abandoned-transfer-never-eof")
+	verifAssert(string(got) == string(c1), "C07.abandoned-transfer-octets")
+	verifAssert(verifGoroutinesAlive() == 0, "C07.abandon-no-goroutine-left")
+	verifReach("C07.abandon-end")
+}
